@@ -97,6 +97,12 @@ impl Ndjson {
         self.lines += 1;
     }
 
+    /// Writes the record and flushes: what was recorded survives an abort of the process.
+    pub fn put_now(&mut self, v: &serde_json::Value) {
+        self.put(v);
+        self.w.flush().expect("flush");
+    }
+
     pub fn finish(mut self) -> usize {
         self.w.flush().expect("flush");
         self.lines
